@@ -67,6 +67,7 @@ type hostGen struct {
 	seq      int
 	noIface  bool // no interface-typed parts
 	maxDepth int
+	bigDims  int // fixed-size (array) dimensions of threshold size in this shape: at most one
 }
 
 // hostBigSize: sizes around typical fast-path thresholds
@@ -133,6 +134,14 @@ func (h *hostGen) shape(d int) *hostShape {
 		n := h.r.Intn(4)
 		if h.r.Intn(8) == 0 {
 			n = hostBigSize(h.r)
+			if isArr {
+				// arrays have their size in the type: two nested big dimensions
+				// would make every value of the shape tens of thousands of elements
+				if h.bigDims > 0 {
+					n = 5 + h.r.Intn(4)
+				}
+				h.bigDims++
+			}
 		}
 		gt := reflect.SliceOf(in.GoT)
 		if isArr {
